@@ -5,10 +5,18 @@
    and the readers layered on the bin archive (text archive, arc, aset, asset binary - below).  Termination is Coq's (structural recursion; fuel lemmas where fuel is used).  The repaired
    code is modelled (fixes 6452b58, fbfd7a2, b15674a, bc4a741); `./check C05` ties the models to /repo by
    outcome category on random and structure-aware mutated inputs in both build profiles, and measures the
-   largest single allocation request with a counting allocator. *)
+   largest single allocation request with a counting allocator.
+
+   A-usize (64-bit target).  `usize` quantities that the code adds WITHOUT a width check - `text_start + offset + 0x20`,
+   `pointer_value + 0x20` (bin_archive.rs:236,248), every reader `position += w` - are unbounded N in the models
+   (BinFormat.from_bytes, TextFormat.*, ASet.*, AssetBin.* therefore carry no `mode`).  That is exact for a 64-bit usize
+   (each operand is below 2^32 or below the buffer length, so no sum reaches 2^64); on a 32-bit target
+   `text_start + offset + 0x20` can overflow for an offset near 2^32, and these theorems do not speak about such a build.
+   The `mode` parameter (Checked / Wrapping) covers the u32 / u64 arithmetic the code does perform at a fixed width. *)
 From Coq Require Import List NArith ZArith Bool.
-From Mila Require Import Lib.Bytes Lib.Machine Model.BinArchive Model.BinFormat Model.Pack
-  Proofs.BinFormatSpec Proofs.BinTotal Proofs.PackTotal.
+From Mila Require Import Lib.Bytes Lib.Machine Model.BinArchive Model.BinFormat Model.BinFormatRun Model.Pack
+  Proofs.BinFormatSpec Proofs.BinTotal Proofs.BinAllocTotal Proofs.PackTotal.
+From Mila Require Proofs.C05Rejects.
 From Mila Require Model.BinStreams Model.TextMap Model.TextFormat Model.Arc Proofs.TextTotal Proofs.ArcTotal Proofs.TextArcTotal.
 From Mila Require Model.ASet Model.AssetBin Proofs.ASetWrite Proofs.RecsTotal.
 Import ListNotations.
@@ -24,12 +32,67 @@ Proof. exact resize_request_bounded. Qed.
 Theorem C05_bin_alloc_is_request : forall e f a r, from_bytes_alloc e f = Ok (a, r) -> resize_request e f = Some r.
 Proof. exact from_bytes_alloc_is_request. Qed.
 
+(* ... for EVERY input, whatever from_bytes returns: Model/BinFormatRun.v is from_bytes with the allocation log kept on the
+   error paths too (the request of `data.resize(data_size)` is logged where the code makes it: after both header checks,
+   before the data is read and before the pointer / label loops) *)
+Theorem C05_bin_run_is_from_bytes : forall e f, snd (from_bytes_run e f) = BinFormat.from_bytes e f.
+Proof. exact from_bytes_run_outcome. Qed.
+Theorem C05_bin_allocs_bounded : forall e f, Forall (fun r => r + 32 <= lenN f) (from_bytes_allocs e f).
+Proof. exact from_bytes_allocs_bounded. Qed.
+(* a request is made exactly when the buffer has a header and the declared sections fit, and it is the data_size field *)
+Theorem C05_bin_allocs_after_checks : forall e f r, In r (from_bytes_allocs e f) <->
+  32 <= lenN f /\ exists pc lc, u32_at e f 4 = Some r /\ u32_at e f 8 = Some pc /\ u32_at e f 12 = Some lc /\
+                                 r + 4 * pc + 8 * lc + 32 <= lenN f.
+Proof. exact from_bytes_allocs_after_checks. Qed.
+Theorem C05_bin_allocs_is_request : forall e f,
+  from_bytes_allocs e f = match resize_request e f with Some r => [r] | None => [] end.
+Proof. exact from_bytes_allocs_request. Qed.
+(* an input that passes the header checks and then fails in the pointer table: the request is logged (and bounded) *)
+Example C05_example_alloc_on_error_path :
+  let f := enc LE 4 40 ++ enc LE 4 4 ++ enc LE 4 1 ++ enc LE 4 0 ++ zeros 16 ++ [1;2;3;4] ++ enc LE 4 4294967295 in
+  from_bytes_run LE f = ([4], Err EOob) /\ from_bytes_alloc LE f = Err EOob.
+Proof. exact alloc_logged_on_error_path. Qed.
+
 (* a header declaring more data, pointers or labels than the buffer holds is rejected (unbounded arithmetic:
    no wrap-around can make the sum small) *)
 Theorem C05_bin_declared_sizes_rejected : forall e f dsz pc lc,
   u32_at e f 4 = Some dsz -> u32_at e f 8 = Some pc -> u32_at e f 12 = Some lc ->
   lenN f < dsz + 4 * pc + 8 * lc + 32 -> BinFormat.from_bytes e f = Err ETooSmall.
 Proof. exact declared_sizes_rejected. Qed.
+
+(* per-entry bounds (bin_archive.rs:230-254): a pointer-table entry whose 4-byte cell is not inside the data region, a
+   label whose address lies beyond the data region, a label whose name offset lies at or beyond the end of the file -
+   each is REJECTED (some Err: the entry may sit behind an earlier defect that is reported first), not merely "no panic" *)
+Theorem C05_bin_pointer_entry_rejected : forall e f dsz pc lc,
+  u32_at e f 4 = Some dsz -> u32_at e f 8 = Some pc -> u32_at e f 12 = Some lc ->
+  forall i pa, i < pc -> u32_at e f (32 + dsz + 4 * i) = Some pa -> dsz < pa + 4 -> exists er, BinFormat.from_bytes e f = Err er.
+Proof. exact C05Rejects.bin_pointer_entry_rejected. Qed.
+Theorem C05_bin_label_address_rejected : forall e f dsz pc lc,
+  u32_at e f 4 = Some dsz -> u32_at e f 8 = Some pc -> u32_at e f 12 = Some lc ->
+  forall j addr, j < lc -> u32_at e f (32 + dsz + 4 * pc + 8 * j) = Some addr -> dsz < addr -> exists er, BinFormat.from_bytes e f = Err er.
+Proof. exact C05Rejects.bin_label_address_rejected. Qed.
+Theorem C05_bin_label_offset_rejected : forall e f dsz pc lc,
+  u32_at e f 4 = Some dsz -> u32_at e f 8 = Some pc -> u32_at e f 12 = Some lc ->
+  forall j off, j < lc -> u32_at e f (32 + dsz + 4 * pc + 8 * j + 4) = Some off ->
+  lenN f <= dsz + 4 * pc + 8 * lc + off + 32 -> exists er, BinFormat.from_bytes e f = Err er.
+Proof. exact C05Rejects.bin_label_offset_rejected. Qed.
+(* what acceptance implies: the declared sections fit and every table entry is in bounds *)
+Theorem C05_bin_accepted_tables_in_bounds : forall e f a, BinFormat.from_bytes e f = Ok a ->
+  exists dsz pc lc, u32_at e f 4 = Some dsz /\ u32_at e f 8 = Some pc /\ u32_at e f 12 = Some lc /\
+    dsz + 4 * pc + 8 * lc + 32 <= lenN f /\
+    (forall i, i < pc -> exists pa, u32_at e f (32 + dsz + 4 * i) = Some pa /\ pa + 4 <= dsz) /\
+    (forall j, j < lc -> exists addr off, u32_at e f (32 + dsz + 4 * pc + 8 * j) = Some addr /\
+        u32_at e f (32 + dsz + 4 * pc + 8 * j + 4) = Some off /\ addr <= dsz /\ dsz + 4 * pc + 8 * lc + off + 32 < lenN f).
+Proof. exact C05Rejects.from_bytes_Ok_tables. Qed.
+(* the header theorem carried to ANY reader of the shape `a <- BinArchive::from_bytes ;; g a` (text archive, arc, aset,
+   asset binary are of that shape), and any bin-parser error is the layered reader's error *)
+Theorem C05_layered_header_rejected : forall A (g : archive -> outcome A) e f dsz pc lc,
+  u32_at e f 4 = Some dsz -> u32_at e f 8 = Some pc -> u32_at e f 12 = Some lc ->
+  lenN f < dsz + 4 * pc + 8 * lc + 32 -> (a <- BinFormat.from_bytes e f ;; g a) = Err ETooSmall.
+Proof. exact (@C05Rejects.layered_header_rejected). Qed.
+Theorem C05_layered_error_passes : forall A (g : archive -> outcome A) e f er,
+  BinFormat.from_bytes e f = Err er -> (a <- BinFormat.from_bytes e f ;; g a) = Err er.
+Proof. exact (@C05Rejects.layered_error_passes). Qed.
 
 (* anything accepted can be re-serialized without panicking, in both modes *)
 Theorem C05_bin_reserialize_no_panic : forall e f a m p,
@@ -46,6 +109,14 @@ Theorem C05_pack_declared_size_rejected : forall m f count i fa sz,
   u32_at BE f (8 + 16 * i + 8) = Some fa -> u32_at BE f (8 + 16 * i + 12) = Some sz ->
   lenN f < fa + sz -> exists e, Pack.parse m f = Err e.
 Proof. exact pack_declared_size_rejected. Qed.
+(* a header whose COUNT declares more 16-byte table entries than the buffer holds *)
+Theorem C05_pack_count_rejected : forall m f count, wfb f -> u16_at BE f 4 = Some count -> 1 <= count ->
+  lenN f < 8 + 16 * count -> exists e, Pack.parse m f = Err e.
+Proof. exact C05Rejects.pack_count_rejected. Qed.
+(* the hypotheses of C05_pack_declared_size_rejected are satisfiable: the finding F8 input (one entry, address 0x20,
+   size 0xFFFFFFF0 in a 48-byte buffer) is rejected with ETooSmall and NO allocation is requested *)
+Example C05_example_F8 : forall m, Pack.parse_run m PackTotal.F8_input = ([], Err ETooSmall).
+Proof. exact PackTotal.F8_repaired. Qed.
 Theorem C05_pack_reserialize_no_panic : forall m f v, Pack.parse m f = Ok v -> forall k, Pack.serialize v <> Panic k.
 Proof. exact pack_reserialize_no_panic. Qed.
 
@@ -75,13 +146,28 @@ Theorem C05_text_from_archive_no_panic : forall fmt a k, TextFormat.from_archive
 Proof. exact TextTotal.text_from_archive_no_panic. Qed.
 Theorem C05_text_from_archive_fuel_suffices : forall fmt a, TextFormat.from_archive fmt a <> Err EOutOfFuel.
 Proof. exact TextTotal.text_from_archive_fuel_never_exhausted. Qed.
-(* anything accepted re-serializes (to Ok, so without a panic), either arithmetic mode, either endianness *)
+(* anything accepted re-serializes WITHOUT A PANIC, either arithmetic mode, either endianness: the property's sentence, for
+   arbitrary accepted input.  (Only the no-panic half is claimed here: the library's serialize returns
+   Err(EncodingFailed) for an accepted file one of whose strings was decoded lossily - e.g. data 81 00 00 00, Unicode format:
+   title U+FFFD - because to_shift_jis fails; an Err is not a panic.) *)
 Theorem C05_text_reserialize_no_panic : forall fmt e f t, TextFormat.from_bytes fmt e f = Ok t ->
-  forall m e', (exists f', TextFormat.serialize m fmt e' t = Ok f') /\ forall k, TextFormat.serialize m fmt e' t <> Panic k.
-Proof. exact TextArcTotal.text_accepted_reserializes. Qed.
-(* the writer is total on every text archive value *)
-Theorem C05_text_serialize_total : forall m fmt e t, exists f, TextFormat.serialize m fmt e t = Ok f.
+  forall m e' k, TextFormat.serialize m fmt e' t <> Panic k.
+Proof. exact TextArcTotal.text_accepted_reserialize_no_panic. Qed.
+(* the writer is total on every text archive value OF THE MODEL, i.e. on ENCODED strings (Shift-JIS bytes / UTF-16 units):
+   the Ok conclusion is conditional on A-codec - it describes the library for archives whose strings lie in the codec's
+   image (to_shift_jis succeeds and gives these bytes); for other strings the library answers Err(EncodingFailed), which the
+   model does not have.  No panic in either case (the theorem above and C05_text_serialize_no_panic). *)
+Theorem C05_text_serialize_total_on_encoded : forall m fmt e t, exists f, TextFormat.serialize m fmt e t = Ok f.
 Proof. exact TextTotal.text_serialize_ok. Qed.
+Theorem C05_text_serialize_no_panic : forall m fmt e t k, TextFormat.serialize m fmt e t <> Panic k.
+Proof. exact TextTotal.text_serialize_no_panic. Qed.
+(* a bin header that declares more than the buffer holds (or a buffer without a header) is rejected by the text reader too *)
+Theorem C05_text_header_rejected : forall fmt e f dsz pc lc,
+  u32_at e f 4 = Some dsz -> u32_at e f 8 = Some pc -> u32_at e f 12 = Some lc ->
+  lenN f < dsz + 4 * pc + 8 * lc + 32 -> TextFormat.from_bytes fmt e f = Err ETooSmall.
+Proof. exact C05Rejects.text_header_rejected. Qed.
+Theorem C05_text_short_rejected : forall fmt e f, lenN f < 32 -> TextFormat.from_bytes fmt e f = Err ETooSmall.
+Proof. exact C05Rejects.text_short_rejected. Qed.
 
 (* ---------------------------------------------------------------- 3DS arc (src/arc.rs) *)
 (* arc::from_bytes, every byte string, both arithmetic modes (repaired code bc4a741) *)
@@ -98,6 +184,23 @@ Proof. exact ArcTotal.arc_from_archive_fuel_never_exhausted. Qed.
 Theorem C05_arc_body_bounded : forall f a address sz b,
   BinFormat.from_bytes LE f = Ok a -> fst (BinStreams.r_read_bytes a address sz) = Ok b -> lenN b + 32 <= lenN f.
 Proof. exact TextArcTotal.arc_bodies_bounded_by_file. Qed.
+(* a bin header that declares more than the buffer holds is rejected by arc::from_bytes too *)
+Theorem C05_arc_header_rejected : forall m f dsz pc lc,
+  u32_at LE f 4 = Some dsz -> u32_at LE f 8 = Some pc -> u32_at LE f 12 = Some lc ->
+  lenN f < dsz + 4 * pc + 8 * lc + 32 -> Arc.arc_from_bytes m f = Err ETooSmall.
+Proof. exact C05Rejects.arc_header_rejected. Qed.
+Theorem C05_arc_short_rejected : forall m f, lenN f < 32 -> Arc.arc_from_bytes m f = Err ETooSmall.
+Proof. exact C05Rejects.arc_short_rejected. Qed.
+(* a Count word that declares more 16-byte records than fit between the Info address and the end of the data region *)
+Theorem C05_arc_count_rejected : forall m a c i n,
+  find_label_address a Arc.COUNT = Some c -> find_label_address a Arc.INFO = Some i ->
+  read_u32 a c = Ok n -> 1 <= n -> size a < i + 16 * n -> exists er, Arc.arc_from_archive m a = Err er.
+Proof. exact C05Rejects.arc_count_rejected. Qed.
+Theorem C05_arc_file_count_rejected : forall m f a c i n, BinFormat.from_bytes LE f = Ok a ->
+  find_label_address a Arc.COUNT = Some c -> find_label_address a Arc.INFO = Some i ->
+  read_u32 a c = Ok n -> 1 <= n -> size a < i + 16 * n -> exists er, Arc.arc_from_bytes m f = Err er.
+Proof. exact C05Rejects.arc_file_count_rejected. Qed.
+(* (a record whose RANGE leaves the data region: C16_range_outside, C16_offset_overflow in Properties/C16.v) *)
 (* the repaired code has no profile-dependent arithmetic left *)
 Theorem C05_arc_mode_independent : forall a, Arc.arc_from_archive Checked a = Arc.arc_from_archive Wrapping a.
 Proof. exact ArcTotal.arc_mode_independent. Qed.
@@ -133,6 +236,16 @@ Proof. exact RecsTotal.ASetT.read_set_advances. Qed.
 (* anything accepted can be re-serialized without panicking, in both modes *)
 Theorem C05_aset_reserialize_no_panic : forall f v m k, ASet.parse f = Ok v -> ASet.serialize m v <> Panic k.
 Proof. exact RecsTotal.ASetT.reserialize_no_panic. Qed.
+
+(* a bin header that declares more than the buffer holds is rejected by the aset / asset-binary readers too *)
+Theorem C05_aset_header_rejected : forall f dsz pc lc,
+  u32_at LE f 4 = Some dsz -> u32_at LE f 8 = Some pc -> u32_at LE f 12 = Some lc ->
+  lenN f < dsz + 4 * pc + 8 * lc + 32 -> ASet.parse f = Err ETooSmall.
+Proof. exact (C05Rejects.layered_header_rejected ASet.from_archive LE). Qed.
+Theorem C05_asset_header_rejected : forall f dsz pc lc,
+  u32_at LE f 4 = Some dsz -> u32_at LE f 8 = Some pc -> u32_at LE f 12 = Some lc ->
+  lenN f < dsz + 4 * pc + 8 * lc + 32 -> AssetBin.parse f = Err ETooSmall.
+Proof. exact (C05Rejects.layered_header_rejected AssetBin.from_archive LE). Qed.
 
 Theorem C05_asset_parse_no_panic : forall f k, AssetBin.parse f <> Panic k.
 Proof. exact RecsTotal.AssetT.parse_no_panic. Qed.
